@@ -386,6 +386,14 @@ def r22_closure(ctx):
                   'self = Fraction.__new__(cls, numerator, denominator); return self',
                   'Rational.__new__ builds values without Fraction.__new__ on some path (or stores numerator/denominator itself): '
                   'un-normalised values break ==, <, abs and min')
+    rmin = rat.methods.get('min')
+    rr_ = [n for n in rmin.own_nodes() if isinstance(n, ast.Return)] if rmin else []
+    ctx.check(len(rr_) == 1 and unparse(rr_[0].value) == 'min(%s)' % (rmin.params[-1] if rmin else 'vals'), R, rmin.node if rmin else rat.node, rmin or rat.qualname,
+              'Rational.min is the minimum under exact comparison', 'return min(vals)', 'Rational.min changed', nontrivial=False)
+    # the operations the property names (+ - * / neg abs, with an int on either side) all come back as Rational
+    for d in ('__add__', '__radd__', '__sub__', '__rsub__', '__mul__', '__rmul__', '__truediv__', '__rtruediv__', '__neg__', '__abs__', '__pos__'):
+        ctx.check(d in wrapped, R, rat.node, rat.qualname, 'Rational.%s returns a Rational (closure of the class under the operations of the property)' % d,
+                  'wrapped by _wrap_method', 'Rational.%s is not wrapped: the result degrades to fractions.Fraction' % d, nontrivial=False)
     # Rational.mul/div/muldiv
     want = {'mul': 'Rational.__mul__(arg1, arg2)', 'div': 'Rational.__truediv__(arg1, arg2)',
             'muldiv': 'Rational.__truediv__(Rational.__mul__(arg1, arg2), arg3)'}
@@ -473,9 +481,24 @@ def r23_comparisons(ctx):
     # Guarded.min compares stored integers strictly
     gm = g.methods.get('min')
     cmpn = [n for n in gm.own_nodes() if isinstance(n, ast.Compare)] if gm else []
-    ctx.check(len(cmpn) == 1 and unparse(cmpn[0]) == 'val._value < min_._value', R, gm.node if gm else g.node, gm or g.qualname,
-              'Guarded.min is the actual minimum of the stored integers', 'val._value < min_._value', 'Guarded.min comparison changed',
-              nontrivial=False)
+    okm = False
+    if gm is not None and len(cmpn) == 1 and isinstance(cmpn[0].ops[0], ast.Lt):
+        # best = vals[0]; for v in vals[1:] (or vals): if v._value < best._value: best = v; return best
+        body = [x for x in gm.node.body if not (isinstance(x, ast.Expr) and isinstance(x.value, ast.Constant))]
+        if len(body) == 3 and isinstance(body[0], ast.Assign) and isinstance(body[1], ast.For) and isinstance(body[2], ast.Return):
+            best = body[0].targets[0].id if isinstance(body[0].targets[0], ast.Name) else None
+            vals = gm.params[1] if len(gm.params) > 1 else 'vals'
+            init_ok = unparse(body[0].value) == '%s[0]' % vals
+            it_ok = unparse(body[1].iter) in ('%s[1:]' % vals, vals)
+            v = body[1].target.id if isinstance(body[1].target, ast.Name) else None
+            ifs = [x for x in body[1].body if isinstance(x, ast.If)]
+            upd = len(ifs) == 1 and unparse(ifs[0].test) == '%s._value < %s._value' % (v, best) and \
+                [unparse(x) for x in ifs[0].body] == ['%s = %s' % (best, v)]
+            okm = init_ok and it_ok and upd and unparse(body[2].value) == best
+    ctx.check(okm, R, gm.node if gm else g.node, gm or g.qualname,
+              'Guarded.min is the actual minimum of the stored integers over ALL the values',
+              'best = vals[0]; for v in vals[1:]: if v._value < best._value: best = v; return best',
+              'Guarded.min does not scan every value with a strict < on the stored integers')
 
 
 # ---------------------------------------------------------------------------
@@ -673,6 +696,14 @@ def r25_printing(ctx):
                   % (ra.split('__')[-1], da.split('__')[-1], ra.split('__')[-1], da.split('__')[-1], da.split('__')[-1]),
                   'the rounding constant is `%s` and the divisor `%s`: not "half the dropped unit" / "10 ** dropped digits"'
                   % ([unparse(x) for x in rdef], [unparse(x) for x in ddef]))
+        # the display precision is clamped only when it is out of range
+        if qn == FIXED:
+            clamps = [n for n in init.own_nodes() if isinstance(n, ast.If) and any(isinstance(x, ast.Assign) and unparse(x.targets[0]) == 'display' for x in n.body)]
+            okc = len(clamps) == 1 and isinstance(clamps[0].test, ast.BoolOp) and isinstance(clamps[0].test.op, ast.Or) and \
+                sorted(unparse(v) for v in clamps[0].test.values) == ['display < 0', 'display > cls.precision']
+            ctx.check(okc, R, clamps[0] if clamps else init.node, init, 'Fixed honours the configured display digits whenever 0 <= display <= precision',
+                      'display is replaced by the precision only under `display < 0 or display > cls.precision`',
+                      'the display clamp is `%s`' % (unparse(clamps[0].test) if clamps else None), nontrivial=False)
         # the integer/fraction split uses 10 ** display
         sc = [k for k, v in defs.items() if len(v) == 1 and unparse(v[0]) == '10 ** cls.display']
         used = [x for x in s_.own_nodes() if isinstance(x, ast.Attribute) and cls.mangle(x.attr) in sc]
